@@ -11,8 +11,16 @@ import sys
 def twin_check():
     import desper
 
+    events = {}
+
+    @desper.event_handler('on_add', 'on_remove')
     class A:
-        pass
+        # lifecycle callbacks are part of the effect of the World call: logged per twin
+        def on_add(self, entity, world):
+            events.setdefault(id(world), []).append(('on_add', type(self).__name__, entity))
+
+        def on_remove(self, entity, world):
+            events.setdefault(id(world), []).append(('on_remove', type(self).__name__, entity))
 
     class B(A):
         pass
@@ -35,13 +43,15 @@ def twin_check():
         p = desper.ProcessorReference(P1)
 
     def snapshot(w, comps):
-        return (sorted(map(repr, w.entities)),
+        return (sorted(map(repr, w.entities)), list(events.get(id(w), [])),
+                [[type(x).__name__ for x in w.get_components(e)] if w.entity_exists(e) else None for e in (1,)],
                 [[id(c) in [id(x) for x in w.get_components(e)] for c in comps] for e in (1, 2, 3)],
                 [w.has_component(e, T) for e in (1, 2) for T in (A, B)],
                 [type(p).__name__ for p in w.processors])
     ops = ['add_A', 'add_B', 'remove_A', 'remove_B', 'has_A', 'get_A', 'get_components', 'delete',
            'ref_get', 'ref_set', 'ref_del', 'pref_set', 'pref_get', 'pref_del', 'process']
     for seq in itertools.product(ops, repeat=3):
+        events.clear()
         w1, w2 = desper.World(), desper.World()
         c1, c2 = Ctl(), Ctl()
         w1.create_entity(c1)
